@@ -403,12 +403,13 @@ def run(ctx):
             over = agg[k]
             if n and over * 100000 > n and over > (3 if not (not q and base.endswith("f32")) else 0):
                 # sampled: require a clear excess (one-sided exact binomial tail at the claimed rate)
-                from math import comb
+                import math
 
-                pr = 1e-5
-                tail = 1.0
-                if n < 10**7:
-                    tail = 1 - sum(comb(n, j) * pr**j * (1 - pr) ** (n - j) for j in range(min(over, 200)))
+                lam = n * 1e-5  # Poisson approximation of Binomial(n, 1e-5), accurate for these n
+                if over > 50 * max(lam, 1):
+                    tail = 0.0
+                else:
+                    tail = max(0.0, 1 - sum(math.exp(-lam + j * math.log(lam) - math.lgamma(j + 1)) for j in range(over)))
                 if not q and base.endswith("f32") and "hypot" not in base:
                     tail = 0.0  # exhaustive: the count is exact
                 if tail < 1e-9:
